@@ -25,6 +25,11 @@ pub struct Case {
     pub only_k: Option<u64>,
     pub cap: u64,
     pub sample_seed: u64,
+    /// diff the (str) texts through a user-side, case-insensitive
+    /// `DiffableStr` type: lines and words may be equal without being
+    /// byte-identical
+    #[serde(default)]
+    pub nocase: bool,
 }
 
 #[derive(Clone, Debug, PartialEq)]
@@ -180,6 +185,46 @@ fn judge(op: &DiffOp, plain: &[PlainChange], inl: &[InlineCh]) -> Result<(), Fai
         }
     }
     Ok(())
+}
+
+/// Ill-formed UTF-8: invalid lead bytes, truncated 2/3/4-byte characters, a
+/// lone continuation byte, an encoded surrogate, an overlong encoding.
+const ILL_FORMED: [&[u8]; 9] = [
+    b"\xff",
+    b"\xfe\xff",
+    b"\xf0\x90\x80",
+    b"\xf0\x90\x81",
+    b"\xe2\x82",
+    b"\xc3",
+    b"\x80",
+    b"\xed\xa0\x80",
+    b"\xc0\xaf",
+];
+
+/// Splices 1..=3 ill-formed sequences into `text` (valid UTF-8) at character
+/// boundaries; the same few sequences are used on both sides of a case so that
+/// they also take part in equal words.
+fn splice_ill_formed(rng: &mut Rng, text: &[u8]) -> Vec<u8> {
+    let s = match std::str::from_utf8(text) {
+        Ok(s) => s,
+        Err(_) => return text.to_vec(),
+    };
+    let mut cuts: Vec<usize> = s.char_indices().map(|(i, _)| i).collect();
+    cuts.push(s.len());
+    let mut at: Vec<usize> = (0..1 + rng.usize(3)).map(|_| cuts[rng.usize(cuts.len())]).collect();
+    at.sort();
+    let mut out = Vec::with_capacity(text.len() + 12);
+    let mut last = 0;
+    for a in at {
+        out.extend_from_slice(&text[last..a]);
+        out.extend_from_slice(ILL_FORMED[[0usize, 2, 3, 6][rng.usize(4)]]);
+        if rng.chance(1, 2) {
+            out.extend_from_slice(ILL_FORMED[rng.usize(ILL_FORMED.len())]);
+        }
+        last = a;
+    }
+    out.extend_from_slice(&text[last..]);
+    out
 }
 
 pub struct C16;
@@ -346,6 +391,12 @@ impl C16 {
     fn exec_inner(&self, case: &Case, out: &mut RunOut) -> Result<(), Fail> {
         let t = &case.text;
         let mut dig = Dig::new();
+        if t.bytes && (std::str::from_utf8(&t.old).is_err() || std::str::from_utf8(&t.new).is_err()) {
+            out.count("byte_texts_with_ill_formed_utf8", 1);
+        }
+        if case.nocase && !t.bytes {
+            out.count("texts_through_case_insensitive_user_type", 1);
+        }
         // the outer line diff (no deadline: must not read the clock)
         let res = {
             let _guard = SimGuard::new(None, t.hasher);
@@ -358,8 +409,14 @@ impl C16 {
                 } else {
                     let o = std::str::from_utf8(&t.old).expect("utf-8");
                     let n = std::str::from_utf8(&t.new).expect("utf-8");
-                    let diff = cfg.diff_lines(o, n);
-                    self.run_ops(case, &diff, out, &mut dig)
+                    if case.nocase {
+                        use crate::custom_str::Ci;
+                        let diff = cfg.diff_lines(Ci::new(o), Ci::new(n));
+                        self.run_ops(case, &diff, out, &mut dig)
+                    } else {
+                        let diff = cfg.diff_lines(o, n);
+                        self.run_ops(case, &diff, out, &mut dig)
+                    }
                 }
             })
         };
@@ -381,7 +438,7 @@ impl Prop for C16 {
         "exploration"
     }
     fn rule(&self) -> &'static str {
-        "cases drawn from the run seed: two line texts whose replaced blocks share words (multi-byte words, NBSP/tab/ideographic-space separators, LF/CRLF/lone-CR, missing final newline, 1..3 vs 1..3 line blocks), str or [u8] (valid UTF-8), outer algorithm; for every op: iter_inline_changes_deadline with no deadline, with the deadline expiring at EVERY probe k of the inner Patience word diff (0..=K), and the default iter_inline_changes under a cost-model virtual clock against its hard-coded 500 ms budget; every result is compared with iter_changes(op). evaluations = executions; distinct non-trivial = distinct (op, k, emphasised segmentation) among executions in which the inner deadline actually expired and the per-line assembly path still ran"
+        "cases drawn from the run seed: two line texts whose replaced blocks share words (multi-byte words, NBSP/tab/ideographic-space separators, LF/CRLF/lone-CR, missing final newline, 1..3 vs 1..3 line blocks), str (a fifth of them diffed through a user-side case-insensitive DiffableStr wrapper, with the case of letters flipped on the new side) or [u8] (a third of the [u8] texts with ill-formed UTF-8 sequences spliced in: invalid lead bytes, truncated characters, lone continuation bytes, surrogates, overlongs), outer algorithm; for every op: iter_inline_changes_deadline with no deadline, with the deadline expiring at EVERY probe k of the inner Patience word diff (0..=K), and the default iter_inline_changes under a cost-model virtual clock against its hard-coded 500 ms budget; every result is compared with iter_changes(op). evaluations = executions; distinct non-trivial = distinct (op, k, emphasised segmentation) among executions in which the inner deadline actually expired and the per-line assembly path still ran"
     }
     fn fault_names(&self) -> Vec<&'static str> {
         vec![
@@ -402,7 +459,7 @@ impl Prop for C16 {
         })
     }
     fn assumptions(&self) -> Vec<&'static str> {
-        vec!["byte inputs are valid UTF-8 (C16's quantifier does not include invalid UTF-8)"]
+        vec!["a third of the [u8] texts carry ill-formed UTF-8 sequences; str texts cannot"]
     }
     fn runs(&self, tier: Tier) -> u64 {
         match tier {
@@ -439,6 +496,22 @@ impl Prop for C16 {
             }
             _ => {}
         }
+        // [u8] texts: a third of them with ill-formed UTF-8 (the reason to diff
+        // bytes at all) spliced in at character boundaries
+        if text.bytes && text.old.len() < 60_000 && rng.chance(1, 3) {
+            text.old = splice_ill_formed(rng, &text.old);
+            text.new = splice_ill_formed(rng, &text.new);
+        }
+        // str texts: a fifth through a case-insensitive user type, with the
+        // case of some letters of the new text flipped
+        let nocase = !text.bytes && text.old.len() < 60_000 && rng.chance(1, 5);
+        if nocase {
+            for b in text.new.iter_mut() {
+                if b.is_ascii_alphabetic() && rng.chance(1, 4) {
+                    *b ^= 0x20;
+                }
+            }
+        }
         let wordy = text.old.len() > 60_000;
         Case {
             text,
@@ -454,6 +527,7 @@ impl Prop for C16 {
                 512
             },
             sample_seed: rng.next(),
+            nocase,
         }
     }
     fn exec(&self, case: &Case) -> RunOut {
@@ -494,6 +568,11 @@ impl Prop for C16 {
             c.cost_profile = 0;
             out.push(c);
         }
+        if case.nocase {
+            let mut c = case.clone();
+            c.nocase = false;
+            out.push(c);
+        }
         out
     }
     fn reach(&self, agg: &Agg) -> Vec<(&'static str, u64)> {
@@ -506,6 +585,8 @@ impl Prop for C16 {
             ("assembled_from_partial_inner_diff", c("assembled_from_partial_inner_diff")),
             ("default_500ms_budget_expired", agg.faults[F_DEFAULT_EXPIRED]),
             ("replace_ops_with_over_32_lines", c("replace_over_32_lines")),
+            ("byte_texts_with_ill_formed_utf8", c("byte_texts_with_ill_formed_utf8")),
+            ("texts_through_case_insensitive_user_type", c("texts_through_case_insensitive_user_type")),
         ]
     }
 }
